@@ -2521,10 +2521,11 @@ PROPS = {
         'run': run_C05,
         'replay_aware': True,
         'pinned': ['C05_fast_in_call_R', 'C05_fast_in_stream_R', 'C05_fast_out_stream_R', 'C05_fast_chunk_independent_R',
-                   'C05_fast_variant_independent_R', 'C05_fft_inout_stream', 'C05_fft_in_call_R', 'C05_fft_in_stream_R'],
-        'unproved': ['sinc resamplers (incl. set_chunk_size in mid-stream) and FftFixedOut: no stream theorem; decided by the bit-exact '
+                   'C05_fast_variant_independent_R', 'C05_fft_inout_stream', 'C05_fft_in_call_R', 'C05_fft_in_stream_R',
+                   'C05_fft_out_call_R', 'C05_fft_out_stream_R'],
+        'unproved': ['sinc resamplers (incl. set_chunk_size in mid-stream): no stream theorem; decided by the bit-exact '
                      'model on every member of every family plus the family comparison of the implementation outputs',
-                     'FFT types: the spectral core is an oracle with its length contract; FftFixedIn: its f32 quotient read as a real quotient',
+                     'FFT types: the spectral core is an oracle with its length contract; FftFixedIn / FftFixedOut: their f32 quotients read as real quotients',
                      'ratio schedules (set_resample_ratio between chunks): the theorems are for constant ratio',
                      '"equal up to floating-point rounding": the theorems are over R; the size of the float deviation between two chunkings is '
                      'measured against a fixed tolerance (bit-identity is demanded where the position arithmetic is exact)'],
